@@ -267,7 +267,22 @@ func SameValue(a, b Value) bool {
 }
 
 // IdxKey is the canonical property key of a non-negative integer below 2^53.
-func IdxKey(i float64) string { return strconv.FormatInt(int64(i), 10) }
+func IdxKey(i float64) string {
+	if i >= 0 && i < idxKeyCacheSize {
+		return idxKeyCache[int(i)]
+	}
+	return strconv.FormatInt(int64(i), 10)
+}
+
+const idxKeyCacheSize = 70002
+
+var idxKeyCache = func() []string {
+	c := make([]string, idxKeyCacheSize)
+	for i := range c {
+		c[i] = strconv.Itoa(i)
+	}
+	return c
+}()
 
 // ArrayIndex reports whether key is an array index (canonical numeric string, value <= 2^32-2).
 func ArrayIndex(key string) (uint32, bool) {
